@@ -17,7 +17,10 @@ import (
 // mutex, and every line is flushed at once: the file order is a linearisation consistent with
 // happens-before, and a process killed by a runtime fatal leaves a complete prefix.
 type Rec struct {
-	mu  sync.Mutex
+	// Quiet: events of the code under test are dropped WITHOUT touching the mutex, so that the
+	// recorder adds no happens-before edges (race-monitor runs); Force still writes.
+	Quiet bool
+	mu    sync.Mutex
 	f   *os.File
 	w   *bufio.Writer
 	seq int
@@ -41,6 +44,14 @@ func NewRec(path string, appendMode bool) *Rec {
 type E map[string]interface{}
 
 func (r *Rec) Emit(e E) {
+	if r.Quiet {
+		return
+	}
+	r.Force(e)
+}
+
+// Force writes the event even in quiet mode (run framing written by the driver itself).
+func (r *Rec) Force(e E) {
 	r.mu.Lock()
 	defer r.mu.Unlock()
 	r.seq++
